@@ -169,7 +169,7 @@ def model_names(T, items, tag='c14n'):
 
 
 def vnames_bin(ctx):
-    return os.path.join(os.path.dirname(ctx.harness), 'vnames')
+    return vlib.need_bin('vnames')
 
 
 def vnames(ctx, lines):
